@@ -978,11 +978,14 @@ impl Rasn {
                 })
         };
 
-        let root = match oid.0.first().as_ref() {
-            Some(arc) if arc.name == Some("itu-t".into()) || arc.number == Some(0) => Some(0u8),
-            Some(arc) if arc.name == Some("iso".into()) || arc.number == Some(1) => Some(1u8),
-            _ => None,
-        };
+        let root = oid
+            .0
+            .first()
+            .and_then(|arc| {
+                arc.number
+                    .or_else(|| ObjectIdentifierArc::well_known(arc.name.as_ref(), None))
+            })
+            .and_then(|root| u8::try_from(root).ok());
         let resolved_well_known_arcs = oid
             .0
             .clone()
